@@ -110,6 +110,9 @@ func (c *Ctx) Fn(ix *PkgIndex, rule, name string) *FuncInfo {
 	}
 	f := ix.Func(name)
 	if f == nil {
+		f = promotedMethod(ix, name)
+	}
+	if f == nil {
 		c.Missing(rule, shortPkg(ix.Pkg.PkgPath)+"."+name)
 		return nil
 	}
@@ -255,4 +258,26 @@ func runProp(id, tier, verif, replay string) (code int) {
 		}
 	}
 	return run.Finish(verif, start, pd, replay)
+}
+
+// promotedMethod: "(*T).m" / "T.m" is not declared any more, but T still has the method through an embedded field whose type
+// declares it in this package: calls of T.m run that declaration (a duplicate method deleted in favour of promotion).
+func promotedMethod(ix *PkgIndex, name string) *FuncInfo {
+	recv, meth, ok := strings.Cut(strings.TrimPrefix(name, "(*"), ").")
+	if !ok {
+		recv, meth, ok = strings.Cut(name, ".")
+		if !ok {
+			return nil
+		}
+	}
+	tn, _ := ix.Pkg.Types.Scope().Lookup(recv).(*types.TypeName)
+	if tn == nil {
+		return nil
+	}
+	obj, index, _ := types.LookupFieldOrMethod(types.NewPointer(tn.Type()), true, ix.Pkg.Types, meth)
+	fn, isFn := obj.(*types.Func)
+	if !isFn || len(index) < 2 { // declared on T itself (then Func would have found it) or not a method
+		return nil
+	}
+	return ix.declByObj(fn)
 }
